@@ -37,6 +37,6 @@ PROP = dict(
                  'copying the plain-data fields of a session-id sslSessionId_t is a legal way for an application to resume one cached session on two parallel connections'],
     targets=[dict(name='c20_concurrent', src=['props/C20/concurrent.cc', 'harness/c20_wraps.c'], variant='tsan', wraps=WRAPS,
                   env={'VERIF_DIR': '/verif', 'TSAN_OPTIONS': TSAN}, replay_timeout=400,
-                  quick=dict(cases=200, secs=100, shards=4, shrink_secs=10, grace=360),
+                  quick=dict(cases=160, secs=100, shards=4, shrink_secs=10, grace=360),
                   thorough=dict(cases=1200, secs=1000, shards=4, shrink_secs=60, grace=330))],
 )
